@@ -4,75 +4,66 @@ import json, os, subprocess, sys
 HERE = os.path.dirname(os.path.dirname(os.path.abspath(__file__)))
 
 CHECKS = {
- 'C08': dict(sec='2/C08', tech='exhaustive enumeration of all operand pairs / index expressions up to a width bound (engine D) + explicit-state BFS to fixpoint over mutation histories on a real Bits object (engine H), against a (size,value) integer model',
-             text='Every operator of Bits is executed on every vector / ordered pair of vectors up to width 6 (thorough 8), every index expression on widths <=5 (6), and every mutation history on one live vector is explored breadth-first to its fixpoint; each result is compared with an independent (n,x) integer model, operands and aliases are re-read after every call.',
-             note='Trusted: the 40-line integer model in mc/checks/c08.py. Widths above the bound are covered only at the word-boundary alphabet (subcheck wide, not exhaustive).'),
-
- 'C01': dict(sec='2/C01', tech='exhaustive enumeration of every bit length / byte length / container shape up to a block bound (engine P) and of preset counter states on live objects (engine H), against an independent bit-granular reference bound to hashlib',
-             text='Every bit length 1..2B+cs+16 (3 data patterns), every byte length 0..4 blocks, longer containers, over-long bit lengths and preset length counters beyond one word are executed on the real hash objects of all 10 algorithms and compared with hashlib / a bit-granular reference whose constants are derived, not copied.',
-             note='Trusted: hashlib (OpenSSL) and mc/refs/mdsha.py (self-tested against hashlib on 2400 messages and published MD4/SHA-0/bit-oriented vectors at the start of each run). Data values outside the fixed patterns and lengths beyond the bound are not covered.'),
- 'C07': dict(sec='2/C07', tech='exhaustive enumeration of all vectors up to width 11/16 and all byte strings up to 2 bytes under every bit order (engine D), every byte length 1..40 (engine P), against an integer model',
-             text='All constructors, all conversions out and all round trips are executed for every (size,value) up to width 11 (thorough 16), every byte string of length <=2 under bitorder -1/+1/0/2, every byte length 1..40 under every dividing group size, and compared with an independent integer model of the documented bit orders.',
-             note='Trusted: the integer model in mc/checks/c07.py (model_load, 12 lines). Larger widths are covered only on the boundary-value alphabet the property itself names.'),
-
- 'C09': dict(sec='2/C09', tech='exhaustive enumeration of scheme x block size x length residue x bit length (engine P), complete malformed-padding domains for small blocks (engine D), explicit-state BFS over iterblocks call histories on one pad object (engine H), against a padding specification model on integers',
-             text='Every scheme is run on every block size 8..1024 (step 8), every length residue class over 0..3 blocks and every L mod 8; each yielded block and the counters read right after it are compared with a specification model; remove() is applied to the result; PKCS#7/X9.23 remove is run on complete small-block domains; all call histories (continuations, final, refused requests, calls after the pad) to depth 3/4 are explored on live pad objects.',
-             note='Trusted: mc/refs/padspec.py (60 lines, integers only). Not judged: empty message under none/zero padding, bit lengths on byte-granular schemes, padcnt of the length-strengthening schemes.'),
- 'C16': dict(sec='2/C16', tech='exhaustive enumeration of all vector pairs over Z/2^k for small k and dimension (engine D) + BFS to fixpoint over assignment histories on a live Poly (engine H), against a list-of-ints model',
-             text='Every ordered pair of vectors over Z/2, Z/4, Z/8 up to dimension 4/3/2 (thorough 6/4/3 and dim-4 over Z/8 against all short vectors) is run through + - ^ & | //, every vector through neg, shifts and every index/slice/list read and write, the integer ring on a signed alphabet, split/pack on 5-8 element sizes; assignment histories on a live Poly are explored to the fixpoint.',
-             note='Trusted: Python list arithmetic in mc/checks/c16.py. Out-of-range slices, int-valued slice assignment and pack(poly, big-endian) are not judged (ambiguous in the statement).'),
-
- 'C15': dict(sec='2/C15', tech='exhaustive enumeration of all byte strings up to 2 bytes and all width-8 polynomials (engine D); bounded enumeration of widths, lengths, positions and targets (engine P) against zlib and bit-by-bit division',
-             text='crc32 is run on every byte string of length 0..2 and 6 patterns at every length to 64/128 against zlib; the table-driven CRC on every width-8 reflected polynomial x every byte x init/final, and on every width 8..64 with 4-7 polynomials against bit-by-bit division; the fixing functions on every position and a 38-word target alphabet, verified with zlib; the backward computation at every position.',
-             note='Trusted: zlib.crc32 and a 6-line bitwise reference. Targets and polynomials above width 8 are a fixed alphabet, not all 2^32 / 2^N values.'),
- 'C20': dict(sec='2/C20', tech='exhaustive enumeration of all small lists / multisets / item lists (engine D) against itertools and brute force; explicit-state BFS over call histories on the loaded knapsack module (engine H)',
-             text='permutk on every list over {0,1,2} up to length 4/6 and range(n) to 6/8 for every k; nextperm on every permutation and every multiset arrangement; combink for n<=6/7; exactsum/dynprog on every item list up to length 4/6 over weights {1,2,3,5} and every target, validated by brute force (sub-multiset, sum, minimality, failure iff impossible); all call histories to depth 3/4 on one module instance compared with a freshly loaded module.',
-             note='Trusted: itertools and a brute-force subset enumeration. permutk is judged after exhaustion only; exactsum target 0 not judged.'),
-
- 'C02': dict(sec='2/C02', tech='complete component domains (engine D: all 65536 gmul pairs, all S-box cells, all permutation tables on every single-bit input) + enumerated variable-key / variable-text / variable-tweak families (engine P) against independent references bound to OpenSSL/NESSIE/Skein vectors',
-             text='Every exposed component table is exhausted; for each of the 9 cipher configurations the single-bit key family, 254 repeated-byte keys, patterns and DES weak/semi-weak/parity keys x 3 blocks, 3 keys x the block family and the tweak family are encrypted and decrypted by the real objects and compared with reference ciphers; every Serpent key length, every TDEA keying form, and 80 undefined key/tweak/block sizes (must raise).',
-             note='Trusted: mc/refs/blockciphers.py (AES algebraic, DES tables) validated against 2300 OpenSSL-generated blocks per run (20687 in the committed file), mc/refs/serpent.py (NESSIE), mc/refs/skein.py (Skein 1.3 vectors). Not all 2^|K| keys: families plus complete component domains.'),
- 'C03': dict(sec='2/C03', tech='complete domains of every exposed component pair (engine D) + enumerated key/block/tweak families (engine P); purely differential oracle f_inv(f(x)) == x == f(f_inv(x))',
-             text='dec(enc(B))==B and enc(dec(B))==B with exact block length over the same key/block/tweak families as C02 for all 9 cipher configurations, and every exposed inverse pair (AES Sbox, ShiftRows, MixColumns; DES IP; Serpent S-boxes, IP/FP, L; rol/ror for every width<=10/12, amount and value; Salsa/ChaCha index maps) on its complete or stated domain. No reference model is involved.',
-             note='Trusted: nothing but the harness. MixColumns is exhausted on single- and two-active-byte states (it is linear), the linear layers on the single-bit family (linear) plus patterns.'),
-
- 'C05': dict(sec='2/C05', tech='exhaustive enumeration of mode x padding x cipher x message length x IV/counter alphabets (engine P) against SP 800-38A written generically over the same block function and the C09 padding specification',
-             text='ECB/CBC under 5 paddings, CTR with byte and object counters (counter halves at 0,1,2^h-2,2^h-1 and a byte-distinct value) and both CTS modes are run over a stub block cipher of 8 block sizes with every length 0..4 blocks+1, and over all 9 real cipher configurations; outputs equal the generic SP 800-38A model byte for byte, every ciphertext is decrypted by a fresh equally configured object, AES vectors of SP 800-38A appendix F are replayed.',
-             note='Trusted: mc/checks/c05.py sp800_* (10 lines) and mc/refs/padspec.py; the block function itself is taken from the object under test (cipher correctness is C02). CTS variant is not fixed by the statement: length and round trip only.'),
- 'C06': dict(sec='2/C06', tech='exhaustive enumeration of cipher x key size x rounds x length alphabets and single-bit key/nonce families (engine P); preset block counters through the guarded hook; explicit-state BFS over RC4 call histories with (S,i,j) as state (engine H); reference stream ciphers bound to spec/OpenSSL vectors',
-             text='Salsa20 and ChaCha for both key sizes, every even round count 2..20, 11 lengths around the 64-byte block boundaries (enc, length, dec, prefix property for every ordered pair), single-bit key and nonce families, the Salsa20 core on the 512-bit single-bit family; keystream started at blocks around 2^32, 2^33, 2^48 and 2^64-2 through the hook; RC4 for every key length 1..256, and every sequence of up to 3 enc/keystream/dec calls on one object compared with the reference stream and state.',
-             note='Trusted: mc/refs/stream.py (validated each run against spec examples, RFC 6229 and OpenSSL ChaCha20/RC4 keystreams incl. a counter crossing 2^32). Hook BDCHT_CRYSP_VERIF (commit 942588d, add-only).'),
- 'C18': dict(sec='2/C18', tech='enumeration of generated table networks (one program per key of an enumerated key family) each validated on an enumerated block family against reference DES (engine P)',
-             text='For 37 (thorough 106) keys - single-bit keys incl. parity bits, weak and semi-weak keys, parity-only variants, patterns - the tables are generated by the real code, checked structurally (16x12 total byte maps, M1/M2/M3 index ranges, key independence and repeatability) and evaluated through WhiteDES.enc on the single-bit block family and patterns against reference DES and the library DES.',
-             note='Trusted: reference DES bound to OpenSSL. Keys and blocks are families, not all 2^64.'),
-
- 'C11': dict(sec='2/C11', tech='exhaustive enumeration of bit lengths, byte lengths, salts, containers, BLAKE2 lengths and the full product of a BLAKE2 parameter alphabet (engine P); preset counter states on live objects (engine H); reference BLAKE with derived constants, hashlib for BLAKE2',
-             text='BLAKE-224/256/384/512 on every bit length 0..2B+cs+18, every byte length to 4 blocks, 6 salts x 3 container shapes around every boundary, preset counters crossing 2^w and 2^(w+1); BLAKE2s/2b on every byte length 0..4 blocks+1, every outlen, salt/personalization, and the full product of a 4x3x3x3x3x3 tree-parameter alphabet on 2 messages against hashlib; module-level singletons.',
-             note='Trusted: hashlib.blake2b/2s, mc/refs/blake.py (bound to the 8 submission vectors per run). BLAKE2 keys and short salts are not exercised.'),
- 'C13': dict(sec='2/C13', tech='exhaustive enumeration of hash x key length 0..3 blocks x message (engine P) + explicit-state BFS over setkey/MAC histories on one HMAC object (engine H) against Python hmac / RFC 2104 over reference hashes',
-             text='13 hashes x every key length 0..3 blocks (quick: 17 boundary lengths) x 2 key patterns x 4 messages against hmac+hashlib (MD4 and BLAKE: RFC 2104 written out over the reference hash); all setkey/MAC histories to depth 3/4 on one object: every MAC equals that of the last key set.',
-             note='Trusted: Python hmac/hashlib, mc/refs/mdsha.py, mc/refs/blake.py.'),
- 'C14': dict(sec='2/C14', tech='explicit-state BFS over all update histories (all compositions into block-aligned pieces incl. empty pieces, then a closing piece) on real hash objects, states deduplicated by (chaining value, bit counter, pad flag); confluence and reference-digest oracles (engine H); exhaustive cut positions for Nilsimsa (engine D)',
-             text='For 16 hashes and messages of 0..3/4 blocks plus 5 tail classes every history feed(0..3 blocks)* close is explored on a live object; after each piece the state must equal that of a fresh object fed the same prefix in one piece and the bit counter must equal the bits fed; every closing digest must equal the reference digest. Nilsimsa: every 1- and 2-cut of every message of length 0..12/16.',
-             note='Trusted: hashlib / reference hashes for the final digest. Known finding (recorded, not repaired): BLAKE2 closing with an empty final piece after whole blocks.'),
-
- 'C04': dict(sec='2/C04', tech='exhaustive enumeration of width x rate x bit order x bit length x output length x container shape (engine P) and explicit-state BFS over duplex call sequences (engine H) against a bit-level reference sponge bound to hashlib',
-             text='All 7 widths; every rate 1..b-1 for b<=50 (thorough b<=200) and named rates incl. non-byte rates for the larger widths; both bit orders; every bit length 0..2r+2 (or every residue class near the rate boundaries over 0..2 blocks); 7 output lengths incl. several squeezes; longer containers and bitlen=0; SHA3-224..512 and SHAKE128/256 on every byte length to 2 rate blocks against hashlib; module singletons; all duplex call sequences to depth 3 on 4 (7) geometries with the 25 lanes as state.',
-             note='Trusted: hashlib SHA-3/SHAKE and mc/refs/keccak.py (derived round constants / rho offsets, bound to hashlib and a b=200 vector each run).'),
-
- 'C12': dict(sec='2/C12', tech='exhaustive enumeration of state size x bit length x output length x argument subsets x tree shapes (engine P) and preset UBI tweak positions (engine H) against an independent Threefish/UBI/Skein reference bound to the specification vectors',
-             text='Skein-256/512/1024: every bit length 0..2Nb+9 (256; thorough also 512, 1024 to Nb+137) with and without explicit bitlen and with longer containers; every output length multiple of 8 up to 4Nb; key in 5 classes x all 16 subsets of prs/PK/kdf/nonce; all 27 tree shapes x 8 message sizes incl. empty and the Ym cap; UBI started at positions around 2^32, 2^64 and 2^95.',
-             note='Trusted: mc/refs/skein.py (16 spec vectors per run). Tree hashing with a bit length not exercised; No not a multiple of 8: byte count only.'),
- 'C17': dict(sec='2/C17', tech='exhaustive enumeration of digest size x mode x key length x message shape x bit length x round count alphabets (engine P) against an independent MD6 reference bound to the specification examples',
-             text='Every d in 1..512 (quick every 5th) in tree and sequential mode; L in {0,1,2,3,64} x 5 key lengths x 27 message lengths covering 1 to 65 leaves and every 512/384 residue boundary; every L\' mod 8 at one-, two- and three-level sizes with longer containers; default and explicit round counts. Shapes run at 12 rounds, where every input word provably reaches the digest (self-tested on the reference).',
-             note='Trusted: mc/refs/md6.py (3 spec examples + 3 published digests + sensitivity self-test per run).'),
-
- 'C10': dict(sec='2/C10', tech='explicit-state BFS over call histories on real objects (engine H): per object kind a menu of one-shot and perturbation events, states deduplicated by the canonical form of object + sibling, history-independence oracle against a fresh equally configured object, library-globals invariant after every transition',
-             text='48 object kinds incl. the module-level singletons; every history of up to 3 (thorough 5) calls - valid one-shot calls, calls with per-call options, calls that raise, unfinished updates, duplex, suspended keystream generators, calls on a sibling instance with other constructor arguments, direct use of a shared inner hash - is executed on a live object; every judged call must return exactly what it returns on a fresh object; module/class-level state must equal its import-time snapshot. Failing histories are minimised and classified by (kind, judged event, culprit set).',
-             note='Trusted: nothing beyond the harness (purely differential). Perturbation events are not judged; HMAC.setkey and RC4 stream state are out of scope here (C13, C06).'),
- 'C19': dict(sec='2/C19', tech='exhaustive enumeration of all 30 TLSH configurations x length x content x force alphabets, all digest pairs per configuration, all 256 Nilsimsa targets (engine P) against paper/reference models bound to the official vectors',
-             text='Every TLSH configuration on 12/16 lengths (around the window size, 50 and 256 byte gates and the length-bucket formula changes) x 7 contents x force: None or a digest of exactly the configured length equal to the model; from_hash on produced, zero, all-ones and single-bit digests; all ordered digest pairs in 6 call forms (bytes/object): non-negative, symmetric, form-independent, zero on identical, equal to the model score; Nilsimsa for every target and every length 0..39, distances = Hamming.',
-             note='Trusted: mc/refs/lsh.py (official TLSH and Nilsimsa vectors per run). The 48-bucket gate with 18..24 non-empty buckets is only judged for type.'),
+ 'C01': dict(sec='2/C01, 8', tech='bounded exhaustive enumeration of message bit/byte lengths, container shapes and preset counter states, executed on the real hash objects (product-space explorer, engine P/H) against an independent bit-granular reference bound to hashlib',
+   text='All 10 algorithms: every bit length 1..2B+cs+16 (quick: +-9 around every boundary), every byte length to 4 blocks, 5..129-block messages, longer containers, over-long bit lengths (must raise), the same calls on an object that already hashed another message, and live objects whose chaining value and bit counter are preset so that the length field carries into every bit 11..2w. Each result is compared with hashlib or a reference whose constants are derived, not copied.',
+   note='Trusted: hashlib (OpenSSL) and mc/refs/mdsha.py (self-tested each run against hashlib on 2400 messages, RFC 1320, FIPS 180 (1993), NIST SHAVS bit vectors). Data outside the fixed patterns and lengths beyond the bounds are not covered.'),
+ 'C02': dict(sec='2/C02, 8', tech='complete component domains (engine D) + enumerated variable-key/text/tweak families, keying forms, interleaved live instances and undefined sizes (engines P/H) against independent reference ciphers bound to OpenSSL/NESSIE/Skein vectors',
+   text='All 65536 gmul pairs, every S-box cell and permutation-table entry of AES/DES/Serpent; for 9 cipher configurations the single-bit, repeated-byte, pattern, weak/semi-weak/parity key families, keys whose derived words take boundary values, block and tweak families; every Serpent key length and TDEA keying form; every ordered pair of configurations alive at the same time; 80 undefined key/tweak/block sizes (must raise).',
+   note='Trusted: mc/refs/blockciphers.py (validated against OpenSSL-generated blocks each run), serpent.py (NESSIE), skein.py (Skein 1.3 vectors). Families plus complete component domains, not all 2^|K| keys.'),
+ 'C03': dict(sec='2/C03, 8', tech='complete domains of every exposed inverse pair (engine D) + key/block/tweak families and interleaved live instances (engines P/H); purely differential oracle',
+   text='dec(enc(B))==B and enc(dec(B))==B with exact length over the C02 families for 9 cipher configurations, also with a second live instance of another configuration; AES Sbox/ShiftRows/MixColumns, DES IP, Serpent S-boxes/IP/FP/L, rol/ror for every width<=10/12 x amount x value, Salsa/ChaCha index maps on their complete or stated domains.',
+   note='Trusted: nothing but the harness (composition equals identity).'),
+ 'C04': dict(sec='2/C04, 8', tech='bounded exhaustive enumeration of width x rate x bit order x bit length x output length x container (engine P) and explicit-state BFS over duplex / sponge / reconfiguration call sequences (engine H) against a bit-level reference sponge bound to hashlib',
+   text='All 7 widths, every rate 1..b-1 for b<=50 (thorough 200) plus named non-byte rates, both bit orders, every bit length 0..2r+2 or every boundary residue, 7 output lengths, longer containers, bitlen=0, second calls on used objects, 64 KiB+ messages with non-byte rates; SHA3/SHAKE on every byte length to 2 rate blocks and 5..65 blocks vs hashlib; all sequences of duplex calls, plain and per-call-rate sponge calls and attribute reconfigurations to depth 3 against a reference duplex object.',
+   note='Trusted: hashlib SHA-3/SHAKE and mc/refs/keccak.py (derived round constants / rho offsets, bound to hashlib and a b=200 vector each run).'),
+ 'C05': dict(sec='2/C05, 8', tech='bounded exhaustive enumeration of mode x padding x cipher x length x IV/counter (engine P), crafted ciphertext-collision messages, and explicit-state BFS over counter reconfiguration histories (engine H) against SP 800-38A written over the same block function',
+   text='ECB/CBC under 5 paddings, CTR with byte/object counters at the wrap-around values, both CTS modes over a stub cipher of 8 block sizes (every length 0..4 blocks+1, up to 300 blocks, 3 data patterns incl. pad-colliding tails) and 9 real ciphers; messages built with cipher.dec so that a ciphertext block equals the IV / its predecessor / zero; all histories of counter.setup / enc / dec on one CTR object to depth 3; SP 800-38A F vectors.',
+   note='Trusted: sp800_* (10 lines) + mc/refs/padspec.py; the block function is the object under test (cipher correctness is C02). CTS: length + round trip only.'),
+ 'C06': dict(sec='2/C06, 8', tech='bounded exhaustive enumeration of cipher x key size x rounds x length, key/nonce families, the complete quarter-round on a boundary word alphabet (engines P/D), preset block counters via the guarded hook, explicit-state BFS over RC4 call histories with (S,i,j) as state (engine H)',
+   text='Salsa20/ChaCha: both key sizes, every even round count, 16 lengths to 17 blocks (enc, length, dec, prefix property), single-bit key/nonce families, Salsa20 core on the 512-bit single-bit family, quarterround on all 10^4 word tuples of a boundary alphabet, keystream started around 2^32..2^64-2; RC4: every key length 1..256, every sequence of <=3 enc/keystream/dec calls (pieces up to 600 bytes, one key with a 64 KiB+ piece) vs reference stream and state.',
+   note='Trusted: mc/refs/stream.py (spec examples, RFC 6229, OpenSSL ChaCha20/RC4 incl. a counter crossing 2^32). Hook BDCHT_CRYSP_VERIF (commit 942588d, add-only).'),
+ 'C07': dict(sec='2/C07, 8', tech='complete enumeration of all vectors up to width 13/16 and all byte strings up to 2 bytes (engine D), every byte length 1..40 x bit order x explicit size (engine P) against an integer model',
+   text='All constructors, conversions and round trips for every (size,value) to width 13 (thorough 16); every byte string of length <=2 and every byte length 1..40 under every documented bit order, with 12 explicit sizes, also after negative group orders were used first (order-of-use independence); generalized unpack for every byte count.',
+   note='Trusted: model_load (12 lines). Larger widths only on the boundary-value alphabet named by the property.'),
+ 'C08': dict(sec='2/C08, 8', tech='complete enumeration of all operand pairs / index expressions up to a width bound (engine D) + explicit-state BFS to the fixpoint over mutation histories on a live Bits (engine H) against a (size,value) model',
+   text='Every operator on every vector / ordered pair up to width 7 (thorough 8), every index/slice/list read and write on widths <=5 (6) incl. assigning a vector to a permutation of itself; every result is then overwritten through the public mutators and the operation re-evaluated (results are independent objects); all mutation histories on one live vector to the fixpoint; word-boundary widths to 2048.',
+   note='Trusted: the integer model in mc/checks/c08.py. Out-of-range integer indices are not judged.'),
+ 'C09': dict(sec='2/C09, 8', tech='bounded exhaustive enumeration of scheme x block size x length residue x bit length (engine P), complete malformed-padding domains for small blocks (engine D), explicit-state BFS over iterblocks histories and interleaved pad objects (engine H) against an integer padding specification',
+   text='8 schemes x block sizes 8..1024 x every residue class over 0..3, 5, 17 (small blocks 33, 257) blocks x every L mod 8; blocks and counters read after each block, remove(); PKCS#7/X9.23 remove on complete small-block domains; all histories (continuations, final, refusals, calls after the pad) to depth 3/4; every ordered pair of 12 pad configurations alive together.',
+   note='Trusted: mc/refs/padspec.py. Not judged: empty message under none/zero padding, bit lengths on byte-granular schemes, padcnt of length-strengthening schemes.'),
+ 'C10': dict(sec='2/C10, 8', tech='explicit-state BFS over call histories on real objects (engine H): per object kind one-shot, per-call-option, raising, perturbation and sibling-instance events; states deduplicated by the canonical form of object + sibling + changed library globals; oracle = the same event in a forked child that starts from the import-time state',
+   text='53 object kinds incl. module-level singletons and siblings that differ in exactly one constructor aspect (key zero-extended, schema/version, other size); all histories of <=3 (thorough 5) calls; every judged call - also on the sibling - must return exactly what it returns in a pristine process; failing histories are minimised and classified by (kind, judged event, culprit set).',
+   note='Trusted: the harness only (differential). Module-level state is explored, not judged (harmless caches raise no alarm). HMAC.setkey / RC4 stream state are C13 / C06.'),
+ 'C11': dict(sec='2/C11, 8', tech='bounded exhaustive enumeration of bit/byte lengths, salts, containers and the full product of a BLAKE2 parameter alphabet (engine P); preset counters at every power of two and salted streaming on live objects (engine H); reference BLAKE with derived constants, hashlib / RFC 7693 compression for BLAKE2',
+   text='BLAKE-224..512: every bit length 0..2B+cs+18, byte lengths to 4 blocks and 5..65 blocks, 6 salts x 3 containers, second calls on used objects, counters preset below every 2^k (k<2w), salted block-wise streaming; BLAKE2s/2b: every byte length 0..4 blocks+1 and to 257 blocks, every outlen, salt/personalization, full product of a 4x3x3x3x3x3 tree alphabet, parameter calls followed by default calls on one object, byte counter preset below every 2^k.',
+   note='Trusted: hashlib.blake2b/2s, mc/refs/blake.py (8 submission vectors per run), a written-out RFC 7693 compression. BLAKE2 keys / short salts not exercised.'),
+ 'C12': dict(sec='2/C12, 8', tech='bounded exhaustive enumeration of state size x bit length x output length x argument subsets x tree shapes (engine P) and preset UBI tweak positions (engine H) against an independent Threefish/UBI/Skein reference',
+   text='Skein-256/512/1024: every bit length 0..2Nb+9 (quick: 256 only) with/without explicit bitlen, longer containers, 5..65-block messages, second calls on used objects; every output length multiple of 8 to 4Nb and one of 257 blocks; 5 key classes x 16 subsets of prs/PK/kdf/nonce; all 27 tree shapes x 8 sizes; UBI started below every 2^k, k=8..95.',
+   note='Trusted: mc/refs/skein.py (16 spec vectors per run). Tree hashing with a bit length not exercised.'),
+ 'C13': dict(sec='2/C13, 8', tech='bounded exhaustive enumeration of hash x key length 0..3 blocks x message (engine P) + explicit-state BFS over setkey / MAC / caller-owned key buffer histories (engine H) against Python hmac / RFC 2104 over reference hashes',
+   text='13 hashes x every key length 0..3 blocks (quick 17 boundary lengths) x ramp/random/constant (00, ff, 36, 5c) keys x 4-5 messages; all histories to depth 3/4 of setkey with 5 key classes, setkey with one mutable buffer overwritten in place, overwriting that buffer without setkey, and MACs.',
+   note='Trusted: Python hmac/hashlib, mc/refs/mdsha.py, mc/refs/blake.py.'),
+ 'C14': dict(sec='2/C14, 8', tech='explicit-state BFS over all update histories (compositions into block-aligned pieces incl. empty pieces, then a closing piece) on real hash objects with confluence and reference-digest oracles (engine H); complete cut positions for Nilsimsa (engine D)',
+   text='16 hashes x messages of 0..3/4, 6, 9 (17) blocks + 5 tail classes: every history feed(0..3 blocks)* close; state after each piece equals a fresh object fed the prefix at once, counter equals bits fed, closing digest equals the reference; one 257-block piece per hash; Nilsimsa: every 1-/2-cut of messages to 12/16 bytes, cuts of 35..100-byte and 64 KiB+ streams with accumulator-level comparison.',
+   note='Trusted: hashlib / reference hashes. Known finding (recorded): BLAKE2 closing with an empty final piece after whole blocks.'),
+ 'C15': dict(sec='2/C15, 8', tech='complete enumeration of all byte strings up to 2 bytes and all width-8 polynomials (engine D); bounded enumeration of widths, lengths, positions and crafted targets (engine P/H) against zlib and bit-by-bit division',
+   text='crc32 on every byte string of length <=2 and 6 patterns at every length to 64/128; table CRC on every width-8 polynomial and 4-7 polynomials of every width 8..64, the same polynomial value at several widths in one process; fixing functions on every position with 38 targets and targets crafted so that the fixing window is 00000000 / ffffffff / ...; backward computation at every position.',
+   note='Trusted: zlib.crc32 and a 6-line bitwise reference.'),
+ 'C16': dict(sec='2/C16, 8', tech='complete enumeration of all vector pairs over Z/2^k for small k and dimension (engine D) + BFS to the fixpoint over assignment histories (engine H) against a list-of-ints model',
+   text='Every ordered pair over Z/2, Z/4, Z/8 up to dimension 5/3/2 (thorough 6/4/3) through + - ^ & | //, re-evaluated after padding coefficients and results were overwritten in place; neg, shifts, every index/slice/list read and write, copies with dim, values shorter than the selection (value unchanged); the integer ring; split/pack on 5-8 element sizes.',
+   note='Trusted: Python list arithmetic in mc/checks/c16.py. Out-of-range slices / pack big-endian not judged.'),
+ 'C17': dict(sec='2/C17, 8', tech='bounded exhaustive enumeration of digest size x mode x key x message shape x bit length x round count (engine P) against an independent MD6 reference',
+   text='Every d in 1..512 (quick every 5th), L in {0,1,2,3,64} x 5 key lengths x 27 message lengths (1..65 leaves, every 512/384 boundary), every L\' mod 8 at 1-3 levels, default rounds for 5-11 digest sizes keyed / unkeyed / all-zero keys, explicit rounds 1..4095 (23-27 values incl. 167..170), second calls on used objects. Shapes at 12 rounds where every input word reaches the digest (self-tested).',
+   note='Trusted: mc/refs/md6.py (3 spec examples + 3 published digests + sensitivity self-test per run).'),
+ 'C18': dict(sec='2/C18, 8', tech='enumeration of generated table networks (one program per key of an enumerated family, generated after neighbouring keys) each validated on block families and on blocks crafted to reach internal state classes, against reference DES (engine P/H)',
+   text='37 (thorough 106) keys incl. parity bits, weak/semi-weak, parity-only variants: structure of all tables, key independence, evaluation on the single-bit block family; for 2 keys x every round 1..16 blocks computed with the reference so that the internal (L,R) state is zero / all-ones / half-zero / single-bit; tables regenerated from one Bits key object overwritten in place.',
+   note='Trusted: reference DES bound to OpenSSL.'),
+ 'C19': dict(sec='2/C19, 8', tech='bounded exhaustive enumeration of all 30 TLSH configurations x length x content x force, all digest pairs, complete component domains on live objects with injected state (engines P/D) against paper/reference models',
+   text='30 configurations x 12/16 lengths x 7 contents x force (None vs exact-length digest equal to the model, also on used objects); from_hash on produced / single-bit digests; all ordered digest pairs in 6 call forms vs the model score; the length byte for every data length to 2^18 (2^21); the quartile-ratio byte for every pair q<=q3<=200 (400) with the bucket array set by hand; Nilsimsa every target and length 0..39, Hamming distances.',
+   note='Trusted: mc/refs/lsh.py (official vectors per run). 48 buckets with 18..24 non-empty buckets judged for type only.'),
+ 'C20': dict(sec='2/C20, 8', tech='complete enumeration of all small lists / multisets / item lists (engine D) against itertools and brute force; explicit-state BFS over call histories incl. caller-side mutation of arguments and results (engine H)',
+   text='permutk on every list over {0,1,2} to length 5/6 and range(n) to 6/8; nextperm on every permutation and multiset arrangement; combink n<=6/7; exactsum/dynprog on every item list to length 5/6 over weights {1,2,3,5} x every target by brute force; all histories to depth 3/4 of 8 calls, calls on one caller-owned list overwritten in place, and scribbling on the last result, compared with brute force and with a freshly loaded module in a forked child.',
+   note='Trusted: itertools + brute force. permutk judged after exhaustion; exactsum target 0 not judged.'),
 }
 
 PENDING = {}
